@@ -389,7 +389,22 @@ fn apply_ops_nrpn(sc: &mut ParameterNumberMessageScanner, ops: &[Op]) {
 fn check_invert(r: &PnReport, prior: &[Op], carrier: u8) -> CheckResult {
     let mut sc = api(ParameterNumberMessageScanner::new);
     apply_ops_nrpn(&mut sc, prior);
+    let snapshot = sc;
+    // (a) the encoding as the property describes it (reference arithmetic)
     feed_encoding_expect(&mut sc, r, carrier, "invert")?;
+    // (b) the encoding the crate's own encoder produces (LSB first), into RawShortMessage
+    let mut sc = snapshot;
+    let msg = build_pn(r);
+    let enc: [Option<RawShortMessage>; 4] = api(|| msg.to_short_messages(DataEntryByteOrder::LsbFirst));
+    let n = enc.iter().flatten().count();
+    for (i, m) in enc.iter().flatten().enumerate() {
+        let got = api(|| sc.feed(m));
+        if i + 1 < n {
+            ensure!(got.is_none(), "invert_own_encoder/early_report", "message #{} of to_short_messages(LsbFirst) of {:?} reported {:?}", i, r, got.as_ref().map(observe_pn));
+        } else {
+            ensure!(got == Some(msg), format!("invert_own_encoder/{}", if got.is_none() { "no_report" } else { "wrong_report" }), "the crate's own LSB-first encoding of {:?} decodes to {:?}", r, got.as_ref().map(observe_pn));
+        }
+    }
     Ok(!prior.is_empty())
 }
 
@@ -536,9 +551,104 @@ pub fn run_c10(ctx: &Ctx) -> Report {
         });
         subs.push(sub);
     }
+    // (1b) every state of the one-channel abstract fixpoint x a message grid
+    {
+        let mut sub = Sub::new(
+            "invert_after_pool_state",
+            "every reachable per-channel state of the value-abstracted fixpoint (number bytes / data LSB over values {0,1,127}, both kinds; channels 0, 9, 15) x 8 constructors x numbers {0,1,127,128,129,16383} x boundary values: the encoding fed after the shortest history reaching the state",
+            "non-trivial = non-initial prior state",
+            true,
+        );
+        for ch in ctx.pick(vec![9u8], vec![0, 9, 15], vec![0, 9, 15]) {
+            let alphabet: Vec<Op> = nrpn_alphabet(&[ch], &[0, 1, 127]);
+            let out = bfs(
+                ctx,
+                BState { sc: ParameterNumberMessageScanner::new(), rf: RefNrpn::default() },
+                alphabet.len(),
+                |s, i| bfs_step(s, &alphabet[i]),
+                |s| key_of(&s.sc, &[hash64(&s.rf)]),
+                100_000,
+            );
+            sub.states += out.states.len() as u64;
+            let paths: Vec<Vec<Op>> = (0..out.states.len()).map(|i| out.path_to(i).iter().map(|k| alphabet[*k]).collect()).collect();
+            let mut grid: Vec<PnReport> = Vec::new();
+            for c in 0..8usize {
+                for number in [0u16, 1, 127, 128, 129, 16383] {
+                    for value in [0u16, 1, value_max(c) / 2 + 1, value_max(c)] {
+                        grid.push(ctor_report(c, ch, number, value));
+                    }
+                }
+            }
+            let n = paths.len() as u64 * grid.len() as u64;
+            let part = par_enum(ctx, &sub, n, |sub, i| {
+                let prior = &paths[(i / grid.len() as u64) as usize];
+                let r = grid[(i % grid.len() as u64) as usize];
+                sub.eval(
+                    pn_simplicity(r.channel, r.number, r.value) + ((prior.len() as u128) << 52),
+                    || json!({"kind": "invert", "message": report_json(&r), "prior": ops_json(prior), "via": 0}),
+                    || check_invert(&r, prior, (i % 4) as u8),
+                );
+            });
+            sub.merge(part);
+        }
+        sub.exhaustive = true;
+        sub.samples.push(json!({"kind": "invert", "message": report_json(&ctor_report(1, 9, 129, 16383)), "prior": ops_json(&[Op::cc(9, 101, 1), Op::cc(9, 38, 127)]), "via": 0}));
+        subs.push(sub);
+    }
+    // (1c) long repetitions before the message (lazily invalidated state tagged with a wrapping counter)
+    {
+        let mut sub = Sub::new(
+            "invert_after_repetition",
+            "a short prefix (nothing / a data LSB / a full 14-bit message) followed by one (N)RPN controller message repeated k times, k in 250..=260 (thorough: also 65530..=65540), then the encoding of a message from a grid",
+            "non-trivial = every case",
+            false,
+        );
+        let ch = 4u8;
+        let prefixes: Vec<Vec<Op>> = vec![
+            vec![],
+            vec![Op::cc(ch, 38, 5)],
+            vec![Op::cc(ch, 101, 1), Op::cc(ch, 100, 2), Op::cc(ch, 38, 3), Op::cc(ch, 6, 4)],
+            vec![Op::cc(ch, 99, 1), Op::cc(ch, 98, 2), Op::cc(ch, 38, 3)],
+        ];
+        let mut ks: Vec<usize> = (250..=260).collect();
+        if ctx.thorough() {
+            ks.extend(65530..=65540);
+        }
+        let reps: Vec<Op> = NRPN_CONTROLLERS.iter().flat_map(|cn| [Op::cc(ch, *cn, 0), Op::cc(ch, *cn, 1)]).chain([Op::Reset, Op::cc(ch, 7, 0)]).collect();
+        let grid: Vec<PnReport> = vec![ctor_report(0, ch, 129, 5), ctor_report(1, ch, 129, 700), ctor_report(4, ch, 130, 0), ctor_report(5, ch, 258, 16383), ctor_report(3, ch, 1, 1), ctor_report(6, ch, 16383, 127), ctor_report(0, ch, 0, 0)];
+        let mut cases: Vec<(usize, usize, usize, usize)> = Vec::new();
+        for p in 0..prefixes.len() {
+            for r in 0..reps.len() {
+                for &k in &ks {
+                    for g in 0..grid.len() {
+                        cases.push((p, r, k, g));
+                    }
+                }
+            }
+        }
+        if ctx.reduced {
+            cases.truncate(400);
+        }
+        let part = par_enum(ctx, &sub, cases.len() as u64, |sub, i| {
+            let (p, r, k, g) = cases[i as usize];
+            let mut prior = prefixes[p].clone();
+            for _ in 0..k {
+                prior.push(reps[r]);
+            }
+            let msg = grid[g];
+            sub.eval(
+                (k as u128) << 8 | p as u128,
+                || json!({"kind": "invert_repetition", "message": report_json(&msg), "prefix": ops_json(&prefixes[p]), "repeated": op_json(&reps[r]), "times": k}),
+                || check_invert(&msg, &prior, 0),
+            );
+        });
+        sub.merge(part);
+        sub.samples.push(json!({"kind": "invert_repetition", "message": report_json(&grid[0]), "prefix": ops_json(&prefixes[1]), "repeated": op_json(&reps[2]), "times": 254}));
+        subs.push(sub);
+    }
     // (2) after arbitrary random histories
     {
-        let cases = ctx.pick(2_000u64, 30_000, 600_000);
+        let cases = ctx.pick(2_000u64, 100_000, 600_000);
         let max_len = ctx.pick(24usize, 48, 200);
         let proto = Sub::new(
             "invert_after_history",
@@ -579,7 +689,7 @@ pub fn run_c10(ctx: &Ctx) -> Report {
     }
     // (3) running forms
     {
-        let cases = ctx.pick(2_000u64, 30_000, 600_000);
+        let cases = ctx.pick(2_000u64, 100_000, 600_000);
         let max_items = ctx.pick(6usize, 6, 40);
         let proto = Sub::new(
             "running_forms",
@@ -643,6 +753,15 @@ fn map_hist_msg(c: &(RawHistory, PnReport, u8, u8)) -> (Vec<Op>, PnReport) {
 
 pub fn replay_c10(_sub: &str, case: &Value) -> Option<CheckResult> {
     match case["kind"].as_str()? {
+        "invert_repetition" => {
+            let r = report_from(&case["message"])?;
+            let mut prior = ops_from(&case["prefix"])?;
+            let rep = op_from(&case["repeated"])?;
+            for _ in 0..json_u64(&case["times"]).filter(|t| *t <= 100_000)? {
+                prior.push(rep);
+            }
+            Some(check_invert(&r, &prior, 0))
+        }
         "invert" => {
             let r = report_from(&case["message"])?;
             let prior = ops_from(&case["prior"])?;
@@ -799,7 +918,12 @@ pub fn nrpn_alphabet(channels: &[u8], values: &[u8]) -> Vec<Op> {
                 ops.push(Op::cc(ch, cn, v));
             }
         }
-        ops.push(Op::cc(ch, 7, 100)); // transparent control change
+        // every Control Change that is not an (N)RPN controller must be transparent
+        for cn in 0..128u8 {
+            if !NRPN_CONTROLLERS.contains(&cn) {
+                ops.push(Op::cc(ch, cn, 100));
+            }
+        }
         ops.push(Op::Feed { carrier: 0, s: 0x90 | ch, d1: 60, d2: 100 });
     }
     ops.push(Op::Reset);
@@ -858,7 +982,7 @@ pub fn run_c11(ctx: &Ctx) -> Report {
         );
         let mut sub = Sub::new(
             &name,
-            &format!("all histories of every length on channels {:?} over the 8 (N)RPN controllers x values {:?} + reset + transparent CC + note + system message (fixpoint of scanner state x reference state)", chans, values),
+            &format!("all histories of every length on channels {:?} over the 8 (N)RPN controllers x values {:?} + reset + every non-(N)RPN controller + note + system message (fixpoint of scanner state x reference state)", chans, values),
             "non-trivial = transition taken from a non-initial state",
             out.complete && out.failure.is_none(),
         );
@@ -877,8 +1001,48 @@ pub fn run_c11(ctx: &Ctx) -> Report {
         }
         subs.push(sub);
     }
+    // repetition probes (wrapping counters)
     {
-        let cases = ctx.pick(3_000u64, 40_000, 1_000_000);
+        let ch = 6u8;
+        let alphabet = nrpn_alphabet(&[ch], &[0, 127]);
+        let t0 = std::time::Instant::now();
+        let out = bfs(
+            ctx,
+            BState { sc: ParameterNumberMessageScanner::new(), rf: RefNrpn::default() },
+            alphabet.len(),
+            |s, i| bfs_step(s, &alphabet[i]),
+            |s| key_of(&s.sc, &[hash64(&s.rf)]),
+            200_000,
+        );
+        let mut sub = Sub::new(
+            "repetition_probes",
+            &format!("from every state of the abstract fixpoint on channel {} (8 controllers x values {{0,127}}), every operation (incl. reset) repeated k times, k in {{255,256,257}} (thorough: also 65535-65537 from 8 states), followed by every operation once; oracle as in the BFS", ch),
+            "non-trivial = every probe",
+            false,
+        );
+        let mut failure = out.failure.as_ref().map(|(p, f)| (p.clone(), f.clone()));
+        if failure.is_none() {
+            let (tr, f) = repetition_probes(ctx, &out, alphabet.len(), |s, i| bfs_step(s, &alphabet[i]), &[255, 256, 257], if ctx.reduced { 8 } else { usize::MAX });
+            sub.evals += tr;
+            failure = f;
+            if failure.is_none() && ctx.thorough() {
+                let (tr, f) = repetition_probes(ctx, &out, alphabet.len(), |s, i| bfs_step(s, &alphabet[i]), &[65535, 65536, 65537], 8);
+                sub.evals += tr;
+                failure = f;
+            }
+        }
+        sub.nontrivial = sub.evals;
+        sub.states = out.states.len() as u64;
+        sub.wall_ms = t0.elapsed().as_millis() as u64;
+        sub.samples.push(json!({"kind": "history", "ops": ops_json(&[Op::cc(ch, 38, 1), Op::cc(ch, 99, 0), Op::cc(ch, 99, 0), Op::cc(ch, 6, 2)]), "note": "shape of a probe: state, operation repeated k times, one more operation"}));
+        if let Some((path, f)) = failure {
+            let ops: Vec<Op> = path.iter().map(|i| alphabet[*i]).collect();
+            sub.record(f, || json!({"kind": "history", "ops": ops_json(&ops)}), ops.len() as u128);
+        }
+        subs.push(sub);
+    }
+    {
+        let cases = ctx.pick(3_000u64, 150_000, 1_000_000);
         let max_len = ctx.pick(32usize, 64, 400);
         let proto = Sub::new(
             "random_histories",
